@@ -66,6 +66,15 @@ Theorem C19_filter_twice : forall (m : @omap V) f m1 t1 m2 t2, Inv m ->
   abs zero m2 = abs zero m1 /\ t2 = abs zero m1.
 Proof. exact (m_filter_twice zero). Qed.
 
+(* what must not change: Update and Map rewrite values, never keys or their order *)
+Theorem C19_update_keeps_keys : forall (m : @omap V) k f, Inv m ->
+  map fst (abs zero (m_update zero m k f)) = map fst (abs zero m).
+Proof. exact (m_update_keeps_keys zero). Qed.
+
+Theorem C19_map_keeps_keys : forall (m : @omap V) f m1 tr ok, Inv m -> m_map zero m f = (m1, tr, ok) ->
+  map fst (abs zero m1) = map fst (abs zero m).
+Proof. exact (m_map_keeps_keys zero). Qed.
+
 Theorem C19_any_interleaving : forall (threads : list (list (@op V))) h, interleaving threads h ->
   snd (run zero empty h) = snd (s_run zero [] h) /\
   abs zero (fst (run zero empty h)) = fst (s_run zero [] h) /\
@@ -96,5 +105,7 @@ Print Assumptions C19_delete_then_set_moves_last.
 Print Assumptions C19_get_after_set.
 Print Assumptions C19_get_after_delete.
 Print Assumptions C19_filter_twice.
+Print Assumptions C19_update_keeps_keys.
+Print Assumptions C19_map_keeps_keys.
 Print Assumptions C19_lock_discipline.
 Print Assumptions C19_api_complete.
